@@ -1,7 +1,9 @@
+// Extractor for C07: Gen/Palette.lean (colorIndex, flag bits, asIndex weights and operand types).
 package main
 
 import (
 	"fmt"
+	"verifextract/ex"
 	"go/ast"
 	"go/token"
 	"strconv"
@@ -10,10 +12,10 @@ import (
 
 // Gen/Palette.lean: colorIndex, the flag bits, the three weight literals and
 // the operand types of the channel subtraction in Color.asIndex.
-func init() { register("Palette", genPalette) }
+func main() { ex.Main([]string{"Palette.lean"}, genPalette) }
 
-func genPalette(c *ctx) {
-	f := c.parse("color.go")
+func genPalette(c *ex.Ctx) {
+	f := c.Parse("color.go")
 	if f == nil {
 		return
 	}
@@ -22,38 +24,38 @@ func genPalette(c *ctx) {
 
 	// flag bits
 	for _, nm := range []string{"indexed", "rgb"} {
-		v := findVarValue(f, nm)
+		v := ex.FindVarValue(f, nm)
 		be, ok := v.(*ast.BinaryExpr)
 		if !ok || be.Op != token.SHL {
-			c.fail("color.go: const %s is not `1 << n`", nm)
+			c.Fail("color.go: const %s is not `1 << n`", nm)
 			return
 		}
 		one, ok1 := be.X.(*ast.BasicLit)
 		sh, ok2 := be.Y.(*ast.BasicLit)
 		if !ok1 || !ok2 || one.Value != "1" {
-			c.fail("color.go: const %s is not `1 << n`", nm)
+			c.Fail("color.go: const %s is not `1 << n`", nm)
 			return
 		}
 		fmt.Fprintf(&sb, "def %sShift : Nat := %s\n", nm, sh.Value)
 	}
 
 	// palette
-	v := findVarValue(f, "colorIndex")
+	v := ex.FindVarValue(f, "colorIndex")
 	cl, ok := v.(*ast.CompositeLit)
 	if !ok {
-		c.fail("color.go: colorIndex is not a composite literal")
+		c.Fail("color.go: colorIndex is not a composite literal")
 		return
 	}
 	sb.WriteString("\ndef palette : List Nat := [\n")
 	for i, e := range cl.Elts {
 		bl, ok := e.(*ast.BasicLit)
 		if !ok || bl.Kind != token.INT {
-			c.fail("%s: colorIndex element %d is not an integer literal", c.pos(e), i)
+			c.Fail("%s: colorIndex element %d is not an integer literal", c.Pos(e), i)
 			return
 		}
 		n, err := strconv.ParseUint(bl.Value, 0, 32)
 		if err != nil {
-			c.fail("%s: %v", c.pos(e), err)
+			c.Fail("%s: %v", c.Pos(e), err)
 			return
 		}
 		sep := ","
@@ -65,9 +67,9 @@ func genPalette(c *ctx) {
 	sb.WriteString("]\n")
 
 	// asIndex: find `trial := sq(float64(A-B)*w) + ...`
-	fd := findFunc(f, "Color", "asIndex")
+	fd := ex.FindFunc(f, "Color", "asIndex")
 	if fd == nil {
-		c.fail("color.go: Color.asIndex not found")
+		c.Fail("color.go: Color.asIndex not found")
 		return
 	}
 	var weights []string
@@ -93,12 +95,12 @@ func genPalette(c *ctx) {
 			}
 			mul, ok := call.Args[0].(*ast.BinaryExpr)
 			if !ok || mul.Op != token.MUL {
-				c.fail("%s: sq argument is not a product", c.pos(call))
+				c.Fail("%s: sq argument is not a product", c.Pos(call))
 				return false
 			}
 			w, ok := mul.Y.(*ast.BasicLit)
 			if !ok || w.Kind != token.FLOAT {
-				c.fail("%s: weight is not a float literal", c.pos(mul))
+				c.Fail("%s: weight is not a float literal", c.Pos(mul))
 				return false
 			}
 			weights = append(weights, w.Value)
@@ -111,23 +113,23 @@ func genPalette(c *ctx) {
 				}
 				break
 			}
-			if conv, ok := x.(*ast.CallExpr); ok && len(conv.Args) == 1 && c.src(conv.Fun) == "float64" {
+			if conv, ok := x.(*ast.CallExpr); ok && len(conv.Args) == 1 && c.Src(conv.Fun) == "float64" {
 				sub, _ = conv.Args[0].(*ast.BinaryExpr)
 			} else if be, ok := x.(*ast.BinaryExpr); ok {
 				sub = be
 			}
 			if sub == nil || sub.Op != token.SUB {
-				c.fail("%s: expected float64(a-b) or (conv(a)-conv(b)) as the weighted term", c.pos(mul))
+				c.Fail("%s: expected float64(a-b) or (conv(a)-conv(b)) as the weighted term", c.Pos(mul))
 				return false
 			}
-			operands = append(operands, c.src(sub))
+			operands = append(operands, c.Src(sub))
 			for _, side := range []ast.Expr{sub.X, sub.Y} {
 				cv, ok := side.(*ast.CallExpr)
 				if !ok || len(cv.Args) != 1 {
 					signed = false
 					continue
 				}
-				switch c.src(cv.Fun) {
+				switch c.Src(cv.Fun) {
 				case "int", "int16", "int32", "int64", "float64":
 				default:
 					signed = false
@@ -138,7 +140,7 @@ func genPalette(c *ctx) {
 		return false
 	})
 	if len(weights) != 3 {
-		c.fail("color.go asIndex: expected three sq(float64(a-b)*w) terms, found %d", len(weights))
+		c.Fail("color.go asIndex: expected three sq(float64(a-b)*w) terms, found %d", len(weights))
 		return
 	}
 	// weights as hundredths
@@ -146,12 +148,12 @@ func genPalette(c *ctx) {
 	for i, w := range weights {
 		fl, err := strconv.ParseFloat(w, 64)
 		if err != nil {
-			c.fail("weight %s: %v", w, err)
+			c.Fail("weight %s: %v", w, err)
 			return
 		}
 		h := int(fl*100 + 0.5)
 		if float64(h)/100 != fl {
-			c.fail("weight %s is not a multiple of 0.01", w)
+			c.Fail("weight %s is not a multiple of 0.01", w)
 			return
 		}
 		if i > 0 {
@@ -161,8 +163,8 @@ func genPalette(c *ctx) {
 	}
 	sb.WriteString("]\n")
 	fmt.Fprintf(&sb, "\n/-- Source text of the three channel differences. -/\ndef diffExprs : List String := [%s, %s, %s]\n",
-		leanStr(operands[0]), leanStr(operands[1]), leanStr(operands[2]))
+		ex.LeanStr(operands[0]), ex.LeanStr(operands[1]), ex.LeanStr(operands[2]))
 	fmt.Fprintf(&sb, "\n/-- `true` iff both operands of every channel subtraction are converted to a signed/float type\n    first (otherwise the subtraction is done in `uint8` and wraps around). -/\ndef diffSigned : Bool := %v\n", signed)
 	sb.WriteString("\nend VaxisModel.Gen.Palette\n")
-	c.write("Palette.lean", sb.String())
+	c.Write("Palette.lean", sb.String())
 }
